@@ -86,7 +86,8 @@ def _worker(job):
     subdir = SUBDIRS[(idx // 3) % len(SUBDIRS)]
     os.makedirs(os.path.join(tmp, subdir), exist_ok=True)
     path = os.path.join(tmp, subdir, 'xdverif_c10_m%d.py' % idx)
-    with open(path, 'w') as f:
+    # every seventh module is saved with a byte-order mark, every eleventh with CRLF line ends (what editors on Windows write)
+    with open(path, 'w', encoding='utf-8-sig' if idx % 7 == 3 else 'utf-8', newline='\r\n' if idx % 11 == 5 else None) as f:
         f.write(src)
     # queries must not have side effects: ask every doctest whether the pytest plugin would skip it (as a pytest session earlier
     # in the same process does) before the native runner is used
